@@ -227,11 +227,9 @@ class SymNP(types.ModuleType):
     conj = conjugate
 
     def radians(self, x):
-        if SymNP.symbolic_trig:
-            if isinstance(x, np.ndarray):
-                raise Unsupported("array radians in symbolic-trig mode")
-            return Rad(Sym.lift(x))
-        return np.radians(x)
+        if SymNP.symbolic_trig and isinstance(x, Sym):
+            return Rad(x.e)          # symbolic angle: cos/sin become cosd/sind of the degree expression
+        return np.radians(x)         # concrete angle: its float cosine/sine is read as a real constant
 
     deg2rad = radians
 
